@@ -29,9 +29,12 @@ def run(chk, repo):
     chk.rule("C12-Y4", "shape and dtype of the wrapper are copied from the same array object", 1)
     chk.rule("C12-Y3", "every surfacing top-level field of a line record decodes to a scalar or (scalar, attrs)", 40)
     chk.rule("C01-R1", "advertised dtype table == decode table (C12-Y2/Y5)", 6)
-    y1(chk, repo)
-    dtype_tables_agree(chk, repo)
-    y3(chk, repo)
+    chk.attempt(y1, chk, repo)
+    chk.attempt(dtype_tables_agree, chk, repo)
+    chk.attempt(y3, chk, repo)
+    from .c02 import column_delegation
+    chk.rule("C12-Y7", "declared shape == loaded shape: every return of Array.__getitem__ applies the caller's column indexers", 1)
+    chk.attempt(column_delegation, chk, repo, "C12-Y7")
     chk.count("functions", 6)
 
 
